@@ -3,9 +3,11 @@ package e1
 import (
 	"fmt"
 	"os"
+	"strings"
 
 	"kvassverif/internal/core"
 	"kvassverif/internal/e2"
+	"kvassverif/internal/e7"
 )
 
 type propDef struct {
@@ -335,6 +337,9 @@ func registerC01() {
 			"non-trivial = at least 2 shards and a discovered target reported by an in-sync shard; distinct = hash of the case with sizes bucketed",
 		judge: judgeC01, nDirect: nA + nB + nC + nD + nE, direct: direct,
 		nRandom: map[string]int{"quick": 20000, "thorough": 300000},
+		// closed loops (engine E2), half of them with 11-13 shards listed and scaled by the real Kubernetes managers
+		nExtra: map[string]int{"quick": 48, "thorough": 1600},
+		extra:  c01ClosedLoop,
 		nontriv: func(v *view) bool {
 			if v.n < 2 {
 				return false
@@ -347,6 +352,55 @@ func registerC01() {
 			return false
 		},
 	})
+}
+
+// c01ClosedLoop judges the orphan rule cycle by cycle in fault-free closed loops: even cases run 11-13 shards that
+// the real Kubernetes replicas/shard managers list (pods created in shuffled order) and scale, with the targets
+// sitting on high ordinals and scale-down enabled; odd cases are the random workloads of C03.
+func c01ClosedLoop(w *core.WorkerCtx, k int) *core.CaseResult {
+	r := core.NewRng(w.Seed, 0xC01E2, uint64(k))
+	var sc e2.Scenario
+	kind := "random"
+	if k%2 == 0 {
+		kind = "k8s"
+		sc = e2.GenK8sScaleDown(r, "")
+	} else {
+		spec := e2.GenSpec(r)
+		e2.SanitizeInitial(&spec)
+		spec.K8s = k%4 == 3
+		sc = e2.GenWorkload(r, spec)
+	}
+	sc.NoConvergence = true // convergence is C03's business
+	root := e2.ScratchRoot(w.Scratch, 300000+k)
+	defer os.RemoveAll(root)
+	out := e2.Run(sc, root, r.Int63())
+	res := &core.CaseResult{Sig: fmt.Sprintf("closed-loop/%s/%x", kind, core.HashString(fmt.Sprintf("%+v", sc))), Execs: 1}
+	if strings.HasPrefix(out.Err, "coordinator died: ") && len(out.Err) > len("coordinator died: ") {
+		res.Violate("C01/closed-loop/coordinator-died/"+kind, "%s", out.Err)
+		res.Witness = map[string]interface{}{"scenario": sc, "trace": out.Trace}
+		return res
+	}
+	if out.Err != "" {
+		res.Inconcl = "closed loop: " + out.Err
+		return res
+	}
+	res.AddStat("closed_loop_runs", 1)
+	res.AddStat("closed_loop_orphan_rule_checks", int64(out.OrphanChecks))
+	res.AddStat("closed_loop_shards_removed_by_the_coordinator", int64(out.Removals))
+	res.AddSet("closed_loop_kinds", kind)
+	res.AddSet("closed_loop_largest_shard_count", fmt.Sprint(out.MaxShards))
+	res.Nontrivial = out.OrphanChecks > 0
+	for _, v := range out.OrphanViol {
+		res.Violate("C01/closed-loop/orphaned/"+kind, "%s", v)
+		break
+	}
+	if len(res.Viol) > 0 {
+		res.Witness = map[string]interface{}{"scenario": sc, "trace": out.Trace}
+	}
+	if k < 1 {
+		res.Sample = map[string]interface{}{"closed_loop_scenario": sc, "orphan_rule_checks": out.OrphanChecks, "removals": out.Removals}
+	}
+	return res
 }
 
 // ---------------------------------------------------------------------------
@@ -471,6 +525,9 @@ func registerC04() {
 		rule: "same engine as C01 with boundary-biased loads; directed families force each placement path (first assignment first-fit and weighted, head relief at every threshold, process relief, scale-down emptying the tail, oversized targets, several placements on one destination) with load+size at limit-1/limit/limit+1; " +
 			"non-trivial = at least one placement observed or an oversized eligible target present; distinct = hash of the case with sizes bucketed",
 		judge: judgeC04, nDirect: nA + nB + nC + nD + nE + nF, direct: direct,
+		// real processes: the estimates come from the real explorer probing targets with bodies of several parser blocks
+		nExtra:  map[string]int{"quick": 2, "thorough": 8},
+		extra:   func(w *core.WorkerCtx, k int) *core.CaseResult { return e7.Run(w, k, "C04") },
 		bias:    genBias{unhealthyPer12: 2},
 		nRandom: map[string]int{"quick": 20000, "thorough": 300000},
 		nontriv: func(v *view) bool {
@@ -769,6 +826,10 @@ func c07ClosedLoop(w *core.WorkerCtx, k int) *core.CaseResult {
 		for c := 0; c < sc.Perturbed; c++ {
 			sc.ScrapePlan = append(sc.ScrapePlan, []int{3, 3, 3, 3})
 		}
+	} else if k%8 == 5 {
+		// 11-13 shards listed and scaled by the real Kubernetes managers, the targets on high ordinals
+		kind = "k8s"
+		sc = e2.GenK8sScaleDown(r, "150ms")
 	} else {
 		spec := e2.GenSpec(r)
 		e2.SanitizeInitial(&spec)
